@@ -36,4 +36,12 @@ META = {
  "C19": dict(
   rule="Unicode strings of byte lengths 0..12 and around every multiple of 254/255 up to 1020 with multi-byte characters placed across chunk boundaries and code points congruent to ';' or '=' mod 256 through TXT::try_from(&str) / String::try_from(TXT) and a wire round trip; attribute maps (0..4 entries, absent/empty/long values, some entries over 255 bytes) through TXT::try_from(HashMap) / attributes(); attributes() and long_attributes() on arbitrary character-strings (duplicates, invalid UTF-8, '=' first, look-alike characters); CharacterString::new on every length 0..300; all compared with the model and with an independent re-statement of the property; distinct = distinct (request, output)",
   assumptions=STD + ["String::from_utf8 = Lean core String.fromUTF8?"], timeout=dict(quick=1200, thorough=7200)),
+ "C13": dict(
+  rule="histories of add-authoritative / add-cached / remove / clear (0..9 operations) over names from a label alphabet chosen to collide under concatenation (foo, bar, foobar, _my, _mysrv, local, a 20-byte label, ...) and records A/AAAA/SRV/TXT/PTR in classes IN/CH, followed by a query of 0..2 questions (types A AAAA SRV TXT PTR ANY MAILB, classes IN CH ANY, unicast bit), two thirds of the questions aimed at registered names; build_reply on the real store (hook) compared with the model on (none | id, flags, unicast, multiset of answers, multiset of additionals); oracle: the property re-stated as a linear scan over the registered list with Name::is_subdomain_of; non-trivial = at least one operation and one question",
+  assumptions=STD + ["radix_trie 0.2.1: subtrie(key) is Some iff a node sits exactly at the key's nibble path (root, inserted key, or branching point)"],
+  timeout=dict(quick=1200, thorough=7200)),
+ "C20": dict(
+  rule="real-time histories (64 threads in parallel, 8 steps of 0.5 s): add-cached with TTL {0,1,2,1000} and cache-flush, add-authoritative, remove, clear on three A records (x.local, y.x.local, z.local); queries at quarter offsets with the authoritative (exact/subdomain), cached and combined filters; every call is bracketed by Instant::now(); the model is evaluated under the two extreme readings of the measured intervals and a query is compared only when both agree (otherwise counted inconclusive); oracle: the property re-stated over the recorded history; distinct = distinct (history prefix, query, answer)",
+  assumptions=STD + ["std::time::Instant is a monotone clock; the runtime clock is observed through sleeps with measured intervals"],
+  timeout=dict(quick=1200, thorough=7200)),
 }
